@@ -63,6 +63,10 @@ MetaAgrees(doc, meta) ==
     /\ ("Tags" \in DOMAIN doc.meta /\ doc.meta["Tags"].tag = "str") => doc.meta["Tags"].words = meta["Tags"].words
     /\ \A k \in {"SongPreviewTime", "MapId", "MapSetId"} \cap DOMAIN doc.meta :
           Numeric(doc.meta[k]) => Abs(doc.meta[k].num - meta[k].num) <= 1000
+    \* a key the document omits has the declared default of its own field (x1000 for the numeric ones)
+    /\ \A k \in {"MapId", "MapSetId"} \ DOMAIN doc.meta : meta[k].num = 0 - 1000
+    /\ "SongPreviewTime" \notin DOMAIN doc.meta => meta["SongPreviewTime"].num = 0
+    /\ \A k \in StrFields \ DOMAIN doc.meta : meta[k].str = (IF k = "Mode" THEN "Keys4" ELSE "")
 
 DenotesClauses(doc, ch, tol) ==
     [ hits  |-> NotesNear(DenHits(doc), ch.hits, tol, FALSE),
